@@ -185,6 +185,8 @@ impl IsaStringNode {
 impl Aml for IsaStringNode {
     fn to_aml_bytes(&self, sink: &mut dyn AmlSink) {
         // ISA string length (including NULL terminator)
+        // the node length is a 16-bit field
+        assert!(self.len() <= 65535);
         let strlen = self.string.len() as u16 + 1;
         let padding_reqd = strlen % 2 == 1;
         sink.word(RhctNodeType::IsaString as u16);
@@ -240,6 +242,8 @@ impl HartInfoNode {
 impl Aml for HartInfoNode {
     // NOTE: assumes 1 handle for now
     fn to_aml_bytes(&self, sink: &mut dyn AmlSink) {
+        // the node length is a 16-bit field
+        assert!(self.len() <= 65535);
         let ty = RhctNodeType::HartInfo as u16;
         sink.word(ty);
         sink.word(self.len() as u16);
